@@ -287,6 +287,7 @@ class Facts:
                 tgt = self.fixture_functions if "/verif/fixtures/" in fn.file else self.functions
                 if fn.key not in tgt:
                     tgt[fn.key] = fn
+        self.renames = self._canonicalise_member_names()
         for fn in self.functions.values():
             self.by_qn.setdefault(fn.qn, []).append(fn)
         GETTERS.clear()
@@ -315,6 +316,56 @@ class Facts:
                         if t not in subs:
                             subs.add(t)
                             changed = True
+
+    def _canonicalise_member_names(self):
+        """Reads purely renamed data members under their frozen names (spec/names.json).
+
+        A member counts as renamed only when its old name is gone from the record, the new name was never in it, and the
+        vanished and the new names pair up in declaration order with identical types. Everything else (a retyped, removed,
+        added or re-purposed member) is left alone and is judged by the rules as it stands."""
+        path = os.path.join(os.path.dirname(os.path.dirname(os.path.abspath(__file__))), "spec", "names.json")
+        if not os.path.exists(path):
+            return {}
+        with open(path) as fh:
+            frozen = json.load(fh)["records"]
+        renames = {}
+        for rec, want in frozen.items():
+            r = self.records.get(rec)
+            if r is None:
+                continue
+            cur = [(f["name"], f["ct"]) for f in r["fields"]]
+            wn = {n for n, _ in want}
+            cn = {n for n, _ in cur}
+            gone = [(n, t) for n, t in want if n not in cn]
+            new = [(n, t) for n, t in cur if n not in wn]
+            if not gone or len(gone) != len(new):
+                continue
+            if any(g[1] != n[1] for g, n in zip(gone, new)):
+                continue
+            for g, n in zip(gone, new):
+                renames[(rec, n[0])] = g[0]
+        if not renames:
+            return {}
+        for (rec, newn), oldn in renames.items():
+            for f in self.records[rec]["fields"]:
+                if f["name"] == newn:
+                    f["source_name"] = newn
+                    f["name"] = oldn
+        for table in (self.functions, self.fixture_functions):
+            for fn in table.values():
+                for nd in fn.nodes:
+                    if nd["k"] == "MemberExpr" and nd.get("mk") == "field" and (nd.get("mrec"), nd.get("m")) in renames:
+                        nd["m_src"] = nd["m"]
+                        nd["m"] = renames[(nd["mrec"], nd["m"])]
+                if fn.d.get("ctor") and fn.cls:
+                    for ini in fn.d.get("inits", []):
+                        if (fn.cls, ini.get("field")) in renames:
+                            ini["field"] = renames[(fn.cls, ini["field"])]
+                    for b in (fn.cfg or {}).get("blocks", []):
+                        for e in b.get("elems", b.get("elements", [])):
+                            if isinstance(e, dict) and (fn.cls, e.get("init_field")) in renames:
+                                e["init_field"] = renames[(fn.cls, e["init_field"])]
+        return {"%s::%s" % k: v for k, v in renames.items()}
 
     # lookups that fail as analysis-broken when an anchor has vanished
     def fn(self, qn, nparams=None, const=None, pred=None):
@@ -357,7 +408,8 @@ class Facts:
         ncalls = sum(len(f.all_calls()) for f in self.functions.values())
         return {"units": len(self.units), "repo_units": self.meta["repo_units"], "functions": len(self.functions),
                 "records": len(self.records), "enums": len(self.enums), "constants": len(self.vars),
-                "cfg_blocks": nblocks, "call_sites": ncalls, "tree_key": self.meta["key"]}
+                "cfg_blocks": nblocks, "call_sites": ncalls, "tree_key": self.meta["key"],
+                "members_read_under_frozen_names": self.renames}
 
 
 def dump_function(fn, out=None):
